@@ -218,6 +218,39 @@ def scenario(name):
         em.HourlyModel(settings={"cvrmse_threshold": 0.001, "pnrmse_threshold": 0.001}).fit(hd, ignore_disqualification=True)
         if not same(b2[0], hd._df) or ([w.qualified_name for w in hd.warnings], [w.qualified_name for w in hd.disqualification]) != (b2[1], b2[2]):
             bad.append("hourly fit modified the baseline data object")
+    elif name == "fit.other_models":
+        # fitting (or merely constructing / loading) OTHER models never changes a fitted model: its document and public statistics stay put
+        import json as _json
+        from opendsm.eemeter.samples import load_sample
+        from opendsm.eemeter.common.transform import get_baseline_data
+        meter, temp, meta, bm = _daily_inputs()
+        data_a = em.DailyBaselineData.from_series(bm, temp, is_electricity_data=True)
+        a = em.DailyModel().fit(data_a, ignore_disqualification=True)
+        doc_a, err_a = a.to_json(), dict(a.error)
+        m2, t2, meta2 = load_sample("il-gas-hdd-only-daily")
+        bm2, _ = get_baseline_data(m2, end=meta2["blackout_start_date"], max_days=365)
+        data_b = em.DailyBaselineData.from_series(bm2, t2, is_electricity_data=False)
+        em.DailyModel()                                              # an unfitted model
+        loaded = em.DailyModel.from_json(doc_a)                      # a loaded copy
+        b_model = em.DailyModel(settings={"uncertainty_alpha": 0.2}).fit(data_b, ignore_disqualification=True)
+        if a.to_json() != doc_a:
+            j1, j2 = _json.loads(doc_a), _json.loads(a.to_json())
+            keys = [k for k in j1 if j1[k] != j2.get(k)]
+            bad.append(f"fitting another meter's model changed the serialised form of an earlier model (differs in {keys}: {str(j1.get('info', {}).get('error'))[:120]} -> {str(j2.get('info', {}).get('error'))[:120]})")
+        if dict(a.error) != err_a:
+            bad.append(f"fitting another meter's model changed an earlier model's reported statistics: {err_a} -> {dict(a.error)}")
+        if loaded.to_json() != doc_a:
+            bad.append("fitting another meter's model changed a model loaded from JSON")
+        if b_model.to_json() == doc_a:
+            bad.append("harness: the two fits are identical")
+        from bounded.hourly_common import hourly_frame
+        df = hourly_frame("America/Chicago")
+        h1 = em.HourlyModel(settings={"seed": 3}).fit(em.HourlyBaselineData(df.loc["2016-01-01":"2016-04-30"], is_electricity_data=True), ignore_disqualification=True)
+        dh = h1.to_json()
+        em.HourlyModel(settings={"seed": 4, "supplemental_time_series_columns": ["has_pv"]}).fit(
+            em.HourlyBaselineData(df.loc["2016-06-01":"2016-09-30"], is_electricity_data=True), ignore_disqualification=True)
+        if h1.to_json() != dh:
+            bad.append("fitting another hourly model changed the serialised form of an earlier hourly model")
     else:
         raise ValueError(name)
     return {"ok": not bad, "problems": bad}
@@ -229,7 +262,7 @@ def replay(case):
 
 QUICK = ["daily.history", "billing.history", "hourly.history", "hourly.short_baseline_history", "ctor.daily_baseline_series",
          "ctor.daily_reporting_frames", "ctor.billing_baseline_frames", "ctor.billing_reporting_series", "ctor.hourly", "ctor.caltrack_hourly",
-         "fit.data"]
+         "fit.data", "fit.other_models"]
 THOROUGH = QUICK + ["ctor.daily_baseline_frames", "ctor.daily_reporting_series", "ctor.billing_baseline_series", "ctor.billing_reporting_frames"]
 
 
@@ -239,7 +272,8 @@ def run(tier="quick", seed=0):
                 "partial / full year with and without usage, predict(A) on a reloaded copy vs after predicting the others, an hourly model "
                 "with a 5-month baseline predicting unseen (month, weekday) pairs; deep comparison (values, index, timezone, columns) of every "
                 "input of constructors / from_series (Series and DataFrame inputs, differing timezones) / fit / predict; frames handed out "
-                "edited in place and re-read (billing_df read four times). distinct = scenario", known_findings=load_known("C02"))
+                "edited in place and re-read (billing_df read four times); a fitted daily / hourly model and a loaded copy compared before and after other models "
+                "are constructed, loaded and fitted on other meters. distinct = scenario", known_findings=load_known("C02"))
     for sc in (QUICK if tier == "quick" else THOROUGH):
         try:
             r = replay({"scenario": sc})
